@@ -57,8 +57,8 @@ def c01_oracle(fl, raw, run_start_ns):
             if a["sha"] != s["sha"] or a["size"] != s["size"]:
                 fails.append({"path": rel, "why": "file differed under the active rule but is not byte-identical to its source afterwards", "klass": None})
             elif a["mtime_ns"] != s["mtime_ns"]:
-                fails.append({"path": rel, "why": "content right but mtime is not the source's (dest %d vs source %d)" % (a["mtime_ns"], s["mtime_ns"]),
-                              "klass": "big-update-mtime" if big and a["mtime_ns"] >= run_start_ns else None})
+                fails.append({"path": rel, "why": "content right but mtime is not the source's (dest %d vs source %d)%s" % (a["mtime_ns"], s["mtime_ns"], " [update over a destination >= the delta gate]" if big else ""),
+                              "klass": None})
     return fails
 
 
